@@ -664,7 +664,22 @@ class Discharger:
                 if not prev_lit:
                     ok = False
                 prev_lit = False
-        return ok and entails(e.pc, Not(Atom(('empty', t))))[0]
+        nonempty = entails(e.pc, Not(Atom(('empty', t))))[0]
+        if ok and nonempty:
+            return True
+        # the general form: whatever is appended first on any path is a literal that starts with an ASCII character, so offset 1
+        # is a character boundary of the non-empty string
+        def ascii_lit(a):
+            if a is None:
+                return False
+            if a[0] == 'ite' and len(a) == 4:
+                return ascii_lit(a[2]) and ascii_lit(a[3])
+            return a[0] == 'lit' and isinstance(a[1], str) and a[1] != '' and ord(a[1][0]) < 128
+        for i, x in enumerate(apps):
+            first_possible = not any(entails(x.pc, y.pc)[0] for y in apps[:i])
+            if first_possible and not ascii_lit(x.data['args'][0] if x.data['args'] else None):
+                return False
+        return nonempty
 
     def select_has_irrefutable_arm(self, fn):
         b = self.prog.bodies.get(fn)
